@@ -93,6 +93,28 @@ def analyse(facts, tier):
             if not (c2 is not None and strip(c2).get('k') == 'BinaryOperator' and strip(c2)['op'] == '==' and const_of(strip(c2)['r']) == E.get('T_NOTEON') and mentions(c2, member_named('type'))):
                 okc = False
     only = len({u[0] for u in uses}) == seen
+    # structured view: every statement whose condition mentions the flag is `if(isSeek && type == T_NOTEON) continue;`
+    ifs = []
+    def rec(t):
+        if isinstance(t, dict):
+            if t.get('k') in ('IfStmt', 'WhileStmt', 'ForStmt', 'DoStmt') and t.get('cond') is not None and mentions(t['cond'], lambda y: y.get('id') == isk):
+                ifs.append(t)
+            for k2 in ('body', 'then', 'else', 'sub'):
+                v = t.get(k2)
+                if isinstance(v, list):
+                    for y in v:
+                        rec(y)
+                elif isinstance(v, dict):
+                    rec(v)
+    rec(pe.tree)
+    for t in ifs:
+        lits = literals(t['cond'], True)
+        shape = len(lits) == 2 and any(f[0] == 'truth' and f[2] and strip(f[1]).get('id') == isk for f in lits) and \
+            any(f[0] == 'cmp' and f[1] == '==' and const_of(f[3]) == E.get('T_NOTEON') and mentions(f[2], member_named('type')) for f in lits)
+        if not (t.get('k') == 'IfStmt' and shape and (t.get('then') or {}).get('k') == 'ContinueStmt' and t.get('else') is None):
+            okc = False
+    if not ifs:
+        okc = False
     obls.append(Obl('C08.R2', pe.name, 'isSeek && type == T_NOTEON', pe.loc, 'discharged' if (okc and seen >= 1 and only) else 'finding',
                     why='the seek flag is read %d time(s), always conjoined with the note-on test' % seen if (okc and seen >= 1 and only) else 'the seek flag gates something else than note-on events'))
     # the skipped branch is a `continue` of the event loop, handleEvent follows otherwise
